@@ -146,8 +146,11 @@ async def run_real(case, tmpdir):
                    markers=list(conn.failed_when_contains) if plat != "generic" else [],
                    dpriv=conn.default_desired_privilege_level if plat != "generic" else "")
         kwargs = {}
+        # the caller's containers: ONE list object (and one marker-list object) is handed to every call of the case
+        passed_lines = list(case["lines"]) if case["op"] in LIST_OPS else None
+        passed_fwc = list(case["fwc"]) if isinstance(case["fwc"], list) else None
         if case["fwc"] is not None:
-            kwargs["failed_when_contains"] = case["fwc"] if isinstance(case["fwc"], str) else list(case["fwc"])
+            kwargs["failed_when_contains"] = case["fwc"] if isinstance(case["fwc"], str) else passed_fwc
         op = case["op"]
         if op != "cmd":
             kwargs.update(stop_on_failed=case["stop"], eager=case["eager"])
@@ -161,44 +164,88 @@ async def run_real(case, tmpdir):
             with open(path, "wb") as f:
                 f.write(case["text"].encode("utf-8"))
         res = None
-        try:
+
+        async def call(cn):
             if op in ("cmds", "gcmds"):
-                res = await _aw(conn.send_commands(list(case["lines"]), **kwargs))
-            elif op == "cmd":
-                res = await _aw(conn.send_command(case["text"], **kwargs))
-            elif op in ("cmdsfile", "gfile"):
-                res = await _aw(conn.send_commands_from_file(path, **kwargs))
-            elif op == "cfgs":
-                res = await _aw(conn.send_configs(list(case["lines"]), **kwargs))
-            elif op == "cfg":
-                res = await _aw(conn.send_config(case["text"], **kwargs))
-            elif op == "cfgsfile":
-                res = await _aw(conn.send_configs_from_file(path, **kwargs))
-            else:
-                raise ValueError(op)
+                return await _aw(cn.send_commands(passed_lines, **kwargs))
+            if op == "cmd":
+                return await _aw(cn.send_command(case["text"], **kwargs))
+            if op in ("cmdsfile", "gfile"):
+                return await _aw(cn.send_commands_from_file(path, **kwargs))
+            if op == "cfgs":
+                return await _aw(cn.send_configs(passed_lines, **kwargs))
+            if op == "cfg":
+                return await _aw(cn.send_config(case["text"], **kwargs))
+            if op == "cfgsfile":
+                return await _aw(cn.send_configs_from_file(path, **kwargs))
+            raise ValueError(op)
+
+        def containers():
+            return {"lines": None if passed_lines is None else list(passed_lines), "fwc": None if passed_fwc is None else list(passed_fwc)}
+
+        try:
+            res = await call(conn)
         except SimStall:
             obs["stall"] = True
         except Exception as e:  # noqa
             obs["exc"] = type(e).__name__
             obs["exc_repr"] = repr(e)[:200]
-        finally:
-            if path:
+        obs["containers_after"] = containers()
+        first = {"wire": t.writes()[w0:], "belief1": conn._current_priv_level.name if plat != "generic" else "", "mode1": dev.mode_name()}
+        n1 = len(dev.exec_log)
+        spans_first = list(spans)
+        # history: the SAME objects handed to further calls — same connection, a new one, a new one of the other stack
+        obs["repeats"] = []
+        if not obs["stall"] and not case.get("fault") and not case.get("generic_mode"):
+            for how in case.get("repeat", []):
+                rec = {"how": how, "exc": None}
                 try:
-                    os.unlink(path)
-                except OSError:
-                    pass
-        new = dev.exec_log[n0:]
+                    if how == "same":
+                        cn2, dev2, sp2 = conn, dev, spans
+                    else:
+                        st2 = stack if how == "new" else ("async" if stack == "sync" else "sync")
+                        dev2 = CliDevice(devplat, outputs=lambda mode, line: outs.get(line), fail_lines=set(case["fail"]))
+                        cn2, t2 = make_conn(plat, dev2, stack=st2, **kw)
+                        await _aw(cn2.open())
+                        if case.get("session"):
+                            cn2.register_configuration_session(case["session"])
+                        sp2 = []
+                        if plat != "generic":
+                            _wrap_acquire(cn2, dev2, t2, sp2, st2 == "async")
+                    del sp2[:]
+                    m0 = len(dev2.exec_log)
+                    try:
+                        r2 = await call(cn2)
+                        rec["flags"] = [bool(r2.failed)] if not hasattr(r2, "data") else [bool(x.failed) for x in r2]
+                    except SimStall:
+                        rec["exc"] = "stall"
+                    except Exception as e:  # noqa
+                        rec["exc"] = type(e).__name__
+                    inside = set()
+                    for sp in sp2:
+                        inside.update(range(sp["s"], sp["e"]))
+                    rec["nonnav"] = [l for i, (_, l) in enumerate(dev2.exec_log[m0:], start=m0) if i not in inside]
+                except Exception as e:  # noqa
+                    rec["exc"] = "HARNESS:" + repr(e)[:120]
+                rec["containers_after"] = containers()
+                obs["repeats"].append(rec)
+        if path:
+            try:
+                os.unlink(path)
+            except OSError:
+                pass
+        spans[:] = spans_first
+        new = dev.exec_log[n0:n1]
         in_span = [False] * len(new)
         for sp in spans:
             for i in range(sp["s"] - n0, sp["e"] - n0):
                 if 0 <= i < len(new):
                     in_span[i] = True
         obs["log"] = [(in_span[i], m, l) for i, (m, l) in enumerate(new)]
-        obs["wire"] = t.writes()[w0:]
+        obs["wire"] = first["wire"]
         obs["spans"] = [{"target": sp["target"], "belief": sp["belief"], "mode": sp["mode"], "ok": sp["ok"],
                          "lines": [l for _, l in dev.exec_log[sp["s"]:sp["e"]]]} for sp in spans]
-        obs["belief1"] = conn._current_priv_level.name if plat != "generic" else ""
-        obs["mode1"] = dev.mode_name()
+        obs["belief1"], obs["mode1"] = first["belief1"], first["mode1"]
         obs["moves"] = _moves(dev, case.get("session"))
         if res is None:
             obs["resps"], obs["multi_failed"], obs["merged"] = [], None, None
@@ -331,8 +378,41 @@ def oracle_fault(case, obs):
     return v
 
 
+def oracle_history(case, obs):
+    """(i) the caller's containers (the list of lines, a per-call marker list) are the caller's: unchanged after
+    every call; (ii) handing the same objects to further calls — same connection, another one, the other stack —
+    delivers exactly the same lines (and flags) every time"""
+    v = []
+    want = {"lines": list(case["lines"]) if case["op"] in LIST_OPS else None, "fwc": list(case["fwc"]) if isinstance(case["fwc"], list) else None}
+    if obs.get("containers_after") is not None and obs["containers_after"] != want:
+        v.append(("caller-container-mutated", f"after the call the caller's objects are {_short(obs['containers_after'])}, were {_short(want)}"))
+    first = [l for sp, _, l in obs.get("log", []) if not sp]
+    for j, r in enumerate(obs.get("repeats", []), start=2):
+        if (r["exc"] or "").startswith("HARNESS"):
+            continue
+        if r["containers_after"] != want and not v:
+            v.append(("caller-container-mutated", f"after call {j} ({r['how']} connection) the caller's objects are {_short(r['containers_after'])}, were {_short(want)}"))
+        if obs["exc"] is None and (r["exc"] is not None or r.get("nonnav") != first):
+            v.append(("repeat-delivery", f"call {j} with the same list object ({r['how']} connection): device executed {_short(r.get('nonnav'))} / {r['exc']}, "
+                      f"call 1 executed {_short(first)}"))
+            break
+    return v
+
+
+def _short(x):
+    t = repr(x)
+    return t if len(t) < 240 else t[:240] + "…"
+
+
 def oracle(case, obs):
     """-> list of (kind, detail) violations of the property on the real observables"""
+    v = oracle_core(case, obs)
+    if not case.get("fault") and "log" in obs and not obs["stall"]:
+        v += oracle_history(case, obs)
+    return v
+
+
+def oracle_core(case, obs):
     v = []
     plat, op = case["platform"], case["op"]
     lines = expected_lines(case)
@@ -564,6 +644,8 @@ def gen_case(rng, idn, stack=None, platform=None):
             case["generic_mode"] = True
         elif g < 0.10:
             case["decoy"] = True
+    if not case.get("generic_mode") and rng.random() < 0.25:
+        case["repeat"] = rng.choice([["same"], ["new"], ["other"], ["same", "same"], ["new", "other"], ["same", "other", "same"]])
     return finish_case(case)
 
 
@@ -630,6 +712,16 @@ def extra_special_cases(start_id):
                 c.update(extra)
                 out.append(finish_case(c))
                 idn += 1
+            # one list object (and one marker-list object) handed to several calls
+            for op, extra in (("cmds", {"lines": ["l0", "l1", "l2", "l3"]}), ("cfgs", {"lines": ["l0", "bad", "l2", "l3"], "fail": ["bad"]}),
+                              ("cfgs", {"lines": ["l0", "l1", "q"], "fwc": ["nothing", "ERR-7"], "outputs": {"q": "ERR-7 rejected"}}),
+                              ("cfg", {"text": "l0\nl1\nl2", "fwc": ["zzz"]})):
+                for rp in (["same", "same"], ["new", "other"]):
+                    for stop in (False, True):
+                        c = {**base, "id": idn, "platform": plat, "stack": stack, "op": op, "stop": stop, "repeat": rp}
+                        c.update(extra)
+                        out.append(finish_case(c))
+                        idn += 1
             # decoy connection whose marker list is mutated in place
             out.append(finish_case({**base, "id": idn, "platform": plat, "stack": stack, "op": "cfgs", "lines": ["a", "b", "c"], "stop": True,
                                     "outputs": {"a": "ok", "b": "all ok here"}, "decoy": True}))
@@ -647,6 +739,10 @@ def extra_special_cases(start_id):
                             c["fail"] = []      # otherwise the run stops before line 2
                         out.append(finish_case(c))
                         idn += 1
+    for stack in ("sync", "async"):
+        for rp in (["same", "same"], ["new", "other"]):
+            out.append(finish_case({**base, "id": idn, "platform": "generic", "stack": stack, "op": "gcmds", "lines": ["l0", "l1", "l2"], "stop": False, "repeat": rp}))
+            idn += 1
     return out
 
 
@@ -762,7 +858,7 @@ def evaluate(ck, cases, tmpdir, count=True):
         sample["lines"] = [l[:30] for l in expected_lines(c)[:6]]
         if count and dom:
             ck.case((c["platform"], c["stack"], c["op"], tuple(expected_lines(c)), c["stop"], c["eager"], c.get("eager_input"), str(c["fwc"]),
-                     tuple(c["fail"]), c.get("priv"), c.get("warm"), c.get("ret"), tuple(sorted(c["outputs"].items()))),
+                     tuple(c["fail"]), c.get("priv"), c.get("warm"), c.get("ret"), tuple(sorted(c["outputs"].items())), tuple(c.get("repeat", ()))),
                     nontrivial=nl >= 2 and (has_failure or c["eager"] or c["op"] in TEXT_OPS),
                     sample=sample,
                     tags=(f"platform={c['platform']}", f"stack={c['stack']}", f"op={c['op']}", f"n={min(nl, 6)}", f"stop={c['stop']}",
@@ -773,6 +869,7 @@ def evaluate(ck, cases, tmpdir, count=True):
                           "failure=" + ("none" if not has_failure else "yes"), f"warm={bool(c.get('warm'))}",
                           "long-line" if any(len(l) > 990 for l in expected_lines(c)) else "short-lines",
                           "generic_driver_mode" if c.get("generic_mode") else "priv-mode",
+                          "history=" + ("+".join(c["repeat"]) if c.get("repeat") else "single-call"),
                           ("channel-failure=" + c["fault"]["kind"]) if c.get("fault") else "channel-ok"))
         elif count:
             ck.extra["advisory_out_of_domain_cases"] = ck.extra.get("advisory_out_of_domain_cases", 0) + 1
@@ -872,10 +969,11 @@ def run(tier, seed):
                "(plain, empty, leading/trailing blanks, UTF-8, unicode line separators inside in-memory lines, 998..2400-byte lines, lines that "
                "contain marker text) x failing positions x marker set (driver default, constructor override, per-call str / list / empty list) x "
                "stop_on_failed x normal / eager / eager_input x return char x configuration level incl. registered EOS/NX-OS sessions x "
-               "driver already at the level or not. Small scope exhaustive: every list of length <= N over a 4-line alphabet x stop x every "
+               "driver already at the level or not x histories handing ONE list object to 2-4 calls (same connection, new connection, other stack). Small scope exhaustive: every list of length <= N over a 4-line alphabet x stop x every "
                "platform level. Non-trivial = >= 2 lines and (a failure, eager, or a text/file source); distinct by all parameters. "
                "Oracle: device exec_log outside acquire_priv spans == expected prefix (+ vendor abort lines), bytes written == each executed "
-               "line + one return, flags vs markers in the device's own output, abort lines' modes; never consults the model.")
+               "line + one return, flags vs markers in the device's own output, abort lines' modes, caller's containers unchanged after every call, "
+               "repeated calls with the same objects deliver the same lines; never consults the model.")
     ck.trusted = ["Lean 4.33.0 kernel; axioms of every theorem audited ⊆ {propext, Classical.choice, Quot.sound}",
                   "tools/gen/c13.py (marker lists, abort plans from the AST of every _abort_config, defaults of the public signatures, CPython separator set)",
                   "tools/harness simdevice/simtransport (causal device: echo, output, prompt, mode table) and the acquire_priv span recorder in props/c13.py",
